@@ -13,6 +13,7 @@ import SpVerif.Ops.Tlv
 import SpVerif.Ops.Parser
 import SpVerif.Ops.Uslp
 import SpVerif.Ops.Verificator
+import SpVerif.Ops.Robust
 import SpVerif.Ops.Prefix
 import SpVerif.Ops.DirectiveFixed
 import SpVerif.Ops.DirectiveVar
@@ -42,6 +43,7 @@ def allOps : List (String × Handler) := []
   ++ Ops.Parser.ops
   ++ Ops.Uslp.ops
   ++ Ops.Verificator.ops
+  ++ Ops.Robust.ops
   ++ Ops.Prefix.ops
   ++ Ops.DirectiveFixed.ops
   ++ Ops.DirectiveVar.ops
